@@ -2,6 +2,7 @@
    C07: metadata_roundtrip, metadata_other_protocol, metadata_tombstone, owner_updates_any_map_order, in_range
    C06: commit_at_most_one, commit_update_wellformed, commit_malformed_skipped *)
 From Coq Require Import ZArith List Bool Lia Permutation.
+From Coq Require String.
 From Burrow Require Import Int64 Int64Proofs Wire WireEnc WireProofs.
 Import ListNotations.
 Open Scope Z_scope.
@@ -342,3 +343,275 @@ Proof.
     destruct (kv =? 2); [|cbn [oall]; auto]. apply decode_group_metadata_range. }
   rewrite H in L. exact L.
 Qed.
+
+(* ------------------------------------------------------------------------------------------ *)
+(* C06: an offset commit yields at most one update, and only if every field read is complete   *)
+(* ------------------------------------------------------------------------------------------ *)
+
+Definition is_byte (z : Z) : Prop := 0 <= z < 256.
+Definition bytes (l : list Z) : Prop := Forall is_byte l.
+
+Lemma bytes_app a b : bytes (a ++ b) <-> bytes a /\ bytes b.
+Proof. unfold bytes. apply Forall_app. Qed.
+
+Lemma be_val_snoc acc l x : be_val acc (l ++ [x]) = be_val acc l * 256 + x.
+Proof. rewrite be_val_app. reflexivity. Qed.
+
+Lemma enc_be_be_val : forall l, bytes l -> enc_be (length l) (be_val 0 l) = l.
+Proof.
+  induction l as [|x l IH] using rev_ind; intros Hb; [reflexivity|].
+  apply bytes_app in Hb. destruct Hb as [Hl Hx]. inversion Hx as [|? ? Hx' _]; subst. unfold is_byte in Hx'.
+  rewrite app_length. cbn [length]. rewrite Nat.add_1_r. cbn [enc_be]. rewrite be_val_snoc.
+  rewrite Z.div_add_l by lia. rewrite (Z.div_small x 256) by lia. rewrite Z.add_0_r.
+  rewrite Z.add_comm, Z.mod_add by lia. rewrite Z.mod_small by lia. rewrite IH by auto. reflexivity.
+Qed.
+
+Lemma enc_be_shift : forall n u k, enc_be n (u + k * 256 ^ Z.of_nat n) = enc_be n u.
+Proof.
+  induction n; intros u k; [reflexivity|].
+  cbn [enc_be]. rewrite Nat2Z.inj_succ, Z.pow_succ_r by lia.
+  replace (u + k * (256 * 256 ^ Z.of_nat n)) with (u + (k * 256 ^ Z.of_nat n) * 256) by ring.
+  rewrite Z.div_add, Z.mod_add by lia. rewrite IHn. reflexivity.
+Qed.
+
+Lemma read_n_inv n b u r : bytes b -> read_n n b = Some (u, r) -> b = enc_be n u ++ r /\ bytes r.
+Proof.
+  unfold read_n. intros Hb. destruct (length b <? n)%nat eqn:E; [discriminate|].
+  apply Nat.ltb_ge in E. intros H; inversion H; subst.
+  rewrite <- (firstn_skipn n b) in Hb. apply bytes_app in Hb. destruct Hb as [H1 H2].
+  split; [|exact H2].
+  assert (Hl : length (firstn n b) = n) by (rewrite firstn_length; lia).
+  rewrite <- Hl at 1. rewrite enc_be_be_val by exact H1. symmetry. apply firstn_skipn.
+Qed.
+
+Lemma wrap16_shift z : exists k, wrap16 z = z + k * 256 ^ Z.of_nat 2.
+Proof.
+  exists (- ((z + 32768) / 65536)). unfold wrap16. change (256 ^ Z.of_nat 2) with 65536.
+  pose proof (Z.div_mod (z + 32768) 65536). lia.
+Qed.
+Lemma wrap32_shift z : exists k, wrap32 z = z + k * 256 ^ Z.of_nat 4.
+Proof.
+  exists (- ((z + 2147483648) / 4294967296)). unfold wrap32, two31, two32. change (256 ^ Z.of_nat 4) with 4294967296.
+  pose proof (Z.div_mod (z + 2147483648) 4294967296). lia.
+Qed.
+Lemma wrap64_shift z : exists k, wrap64 z = z + k * 256 ^ Z.of_nat 8.
+Proof.
+  exists (- ((z + 9223372036854775808) / 18446744073709551616)). unfold wrap64, two63, two64.
+  change (256 ^ Z.of_nat 8) with 18446744073709551616.
+  pose proof (Z.div_mod (z + 9223372036854775808) 18446744073709551616). lia.
+Qed.
+
+Lemma read_i16_inv b x r : bytes b -> read_i16 b = Some (x, r) -> b = enc_i16 x ++ r /\ in_i16 x /\ bytes r.
+Proof.
+  intros Hb. unfold read_i16. destruct (read_n 2 b) as [[u r']|] eqn:E; [|discriminate].
+  intros H; inversion H; subst. destruct (read_n_inv _ _ _ _ Hb E) as [H1 H2].
+  split; [|split; [apply wrap16_range | exact H2]].
+  destruct (wrap16_shift u) as (k & ->). unfold enc_i16. rewrite enc_be_shift. exact H1.
+Qed.
+Lemma read_i32_inv b x r : bytes b -> read_i32 b = Some (x, r) -> b = enc_i32 x ++ r /\ in_i32 x /\ bytes r.
+Proof.
+  intros Hb. unfold read_i32. destruct (read_n 4 b) as [[u r']|] eqn:E; [|discriminate].
+  intros H; inversion H; subst. destruct (read_n_inv _ _ _ _ Hb E) as [H1 H2].
+  split; [|split; [apply wrap32_range | exact H2]].
+  destruct (wrap32_shift u) as (k & ->). unfold enc_i32. rewrite enc_be_shift. exact H1.
+Qed.
+Lemma read_i64_inv b x r : bytes b -> read_i64 b = Some (x, r) -> b = enc_i64 x ++ r /\ in_i64 x /\ bytes r.
+Proof.
+  intros Hb. unfold read_i64. destruct (read_n 8 b) as [[u r']|] eqn:E; [|discriminate].
+  intros H; inversion H; subst. destruct (read_n_inv _ _ _ _ Hb E) as [H1 H2].
+  split; [|split; [apply wrap64_range | exact H2]].
+  destruct (wrap64_shift u) as (k & ->). unfold enc_i64. rewrite enc_be_shift. exact H1.
+Qed.
+
+Lemma d_i32_inv b x r al : bytes b -> d_i32 b = DOk x r al -> b = enc_i32 x ++ r /\ in_i32 x /\ bytes r.
+Proof.
+  intros Hb. unfold d_i32, of_read. destruct (read_i32 b) as [[y r']|] eqn:E; [|discriminate].
+  intros H; inversion H; subst. apply read_i32_inv; auto.
+Qed.
+Lemma d_i64_inv b x r al : bytes b -> d_i64 b = DOk x r al -> b = enc_i64 x ++ r /\ in_i64 x /\ bytes r.
+Proof.
+  intros Hb. unfold d_i64, of_read. destruct (read_i64 b) as [[y r']|] eqn:E; [|discriminate].
+  intros H; inversion H; subst. apply read_i64_inv; auto.
+Qed.
+
+(* a string that the (repaired) reader accepts is completely present and has a possible length *)
+Lemma read_string_inv b s r al : bytes b -> read_string true b = DOk s r al ->
+  exists so, str_ok so /\ b = enc_string so ++ r /\ s = str_val so /\ bytes r.
+Proof.
+  intros Hb. unfold read_string. destruct (read_i16 b) as [[n r0]|] eqn:E; [|discriminate].
+  destruct (read_i16_inv _ _ _ Hb E) as (Hb0 & Hn & Hr0). unfold in_i16 in Hn.
+  destruct (n =? -1) eqn:E0.
+  - apply Z.eqb_eq in E0. intros H; inversion H; subst. exists None. cbn [str_ok enc_string str_val]. auto.
+  - destruct (n <? 0) eqn:E1; cbn [orb]; [discriminate|].
+    destruct (blen r0 <? n) eqn:E2; [discriminate|].
+    apply Z.ltb_ge in E1, E2. intros H; inversion H; subst.
+    destruct (take_drop_len n r0) as [_ Hl]; [lia|].
+    assert (Hs : r0 = take n r0 ++ drop n r0) by (unfold take, drop; symmetry; apply firstn_skipn).
+    exists (Some (take n r0)). cbn [str_ok enc_string str_val]. rewrite Hl.
+    split; [lia|]. split; [rewrite <- app_assoc, <- Hs; reflexivity|]. split; [reflexivity|].
+    rewrite Hs in Hr0. apply bytes_app in Hr0. tauto.
+Qed.
+
+Lemma decode_offset_key_inv kr g t p r al : bytes kr -> decode_offset_key true kr = DOk (g, t, p) r al ->
+  exists go to, str_ok go /\ str_ok to /\ in_i32 p /\ g = str_val go /\ t = str_val to
+                /\ kr = enc_string go ++ enc_string to ++ enc_i32 p ++ r.
+Proof.
+  intros Hb H. unfold decode_offset_key in H. do 3 binv H. unfold ret in H. inversion H; subst.
+  destruct (read_string_inv _ _ _ _ Hb B) as (go & Hgo & -> & -> & Hb1).
+  destruct (read_string_inv _ _ _ _ Hb1 B0) as (to & Hto & -> & -> & Hb2).
+  destruct (d_i32_inv _ _ _ _ Hb2 B1) as (-> & Hp & _).
+  exists go, to. repeat split; auto; unfold in_i32, in_i64 in *; lia.
+Qed.
+
+Lemma decode_offset_value_v0_inv b off ts r al : bytes b -> decode_offset_value_v0 true b = DOk (off, ts) r al ->
+  exists md, in_i64 off /\ str_ok md /\ in_i64 ts /\ b = enc_i64 off ++ enc_string md ++ enc_i64 ts ++ r.
+Proof.
+  intros Hb H. unfold decode_offset_value_v0 in H. do 3 binv H. unfold ret in H. inversion H; subst.
+  destruct (d_i64_inv _ _ _ _ Hb B) as (-> & Ho & Hb1).
+  destruct (read_string_inv _ _ _ _ Hb1 B0) as (md & Hmd & -> & _ & Hb2).
+  destruct (d_i64_inv _ _ _ _ Hb2 B1) as (-> & Hts & _).
+  exists md. repeat split; auto; unfold in_i32, in_i64 in *; lia.
+Qed.
+
+Lemma decode_offset_value_v3_inv b off ts r al : bytes b -> decode_offset_value_v3 true b = DOk (off, ts) r al ->
+  exists ep md, in_i64 off /\ in_i32 ep /\ str_ok md /\ in_i64 ts
+                /\ b = enc_i64 off ++ enc_i32 ep ++ enc_string md ++ enc_i64 ts ++ r.
+Proof.
+  intros Hb H. unfold decode_offset_value_v3 in H. do 4 binv H. unfold ret in H. inversion H; subst.
+  destruct (d_i64_inv _ _ _ _ Hb B) as (-> & Ho & Hb1).
+  destruct (d_i32_inv _ _ _ _ Hb1 B0) as (-> & Hep & Hb2).
+  destruct (read_string_inv _ _ _ _ Hb2 B1) as (md & Hmd & -> & _ & Hb3).
+  destruct (d_i64_inv _ _ _ _ Hb3 B2) as (-> & Hts & _).
+  exists a0, md. repeat split; auto; unfold in_i32, in_i64 in *; lia.
+Qed.
+
+(* the fields of an offset-commit value that Burrow reads: everything but the v1 expire timestamp *)
+Definition enc_offset_value_read (vv : Z) (v : offset_value) : list Z :=
+  enc_i16 vv ++ enc_i64 (ov_offset v)
+  ++ (if vv =? 3 then enc_i32 (ov_leader_epoch v) else [])
+  ++ enc_string (ov_metadata v) ++ enc_i64 (ov_commit_ts v).
+
+Lemma enc_offset_value_split vv v :
+  enc_offset_value vv v = enc_offset_value_read vv v ++ (if vv =? 1 then enc_i64 (ov_expire_ts v) else []).
+Proof. unfold enc_offset_value, enc_offset_value_read. rewrite <- !app_assoc. reflexivity. Qed.
+
+Definition is_offset_update (r : request) : Prop :=
+  match r with SetConsumerOffset _ _ _ _ _ _ => True | _ => False end.
+
+(* An offset-commit message (key version 0 or 1) produces at most one request, and only a consumer-offset update. *)
+Theorem commit_at_most_one : forall (accept : list Z -> bool) key value o rs al,
+  is_commit_key key ->
+  process_message accept key value o = Done rs al ->
+  (length rs <= 1)%nat /\ Forall is_offset_update rs.
+Proof.
+  intros accept key value o rs al (kv & kr & E & Hkv) H.
+  unfold process_message, process_message_gen in H. rewrite E in H.
+  replace ((kv =? 0) || (kv =? 1)) with true in H by (destruct Hkv; subst; reflexivity).
+  unfold decode_key_and_offset in H.
+  destruct (decode_offset_key true kr) as [[[g t] p] r al0|al0|w]; try discriminate;
+    [|inversion H; subst; cbn; auto].
+  destruct (negb (accept g)); [inversion H; subst; cbn; auto|].
+  destruct value as [|v0 value']; [inversion H; subst; cbn; auto|].
+  destruct (read_i16 (v0 :: value')) as [[vv vr]|]; [|inversion H; subst; cbn; auto].
+  assert (S : forall d, send_offset g t p o al0 d = Done rs al -> (length rs <= 1)%nat /\ Forall is_offset_update rs).
+  { intros d Hd. unfold send_offset in Hd. destruct d as [[off ts] r' al'|al'|w]; try discriminate;
+      inversion Hd; subst; cbn [length]; split; auto; repeat constructor. }
+  destruct ((vv =? 0) || (vv =? 1)); [eapply S; eauto|].
+  destruct (vv =? 3); [eapply S; eauto|]. inversion H; subst; cbn; auto.
+Qed.
+
+(* If an offset-commit message (key version 0 or 1; key and value any byte strings) produces a request r, then the
+   key begins with a complete well-formed offset key and the value begins with every field Burrow reads of a
+   well-formed value of a supported version - each string completely present with a possible length (-1 or
+   0..32767 and not beyond the end), each integer completely present - the lists accept the group, and r carries
+   exactly those fields and the message's own offset.  Contrapositive: a commit in which any field Burrow reads is
+   cut short or carries an impossible length produces no storage update (commit_malformed_skipped). *)
+Theorem commit_update_wellformed : forall (accept : list Z -> bool) key value o rs al r,
+  bytes key -> bytes value -> is_commit_key key ->
+  process_message accept key value o = Done rs al -> In r rs ->
+  exists kv g t p vv v restk restv,
+    (kv = 0 \/ kv = 1) /\ (vv = 0 \/ vv = 1 \/ vv = 3) /\
+    str_ok g /\ str_ok t /\ in_i32 p /\ offset_value_ok v /\
+    key = enc_offset_key kv g t p ++ restk /\
+    value = enc_offset_value_read vv v ++ restv /\
+    accept (str_val g) = true /\
+    r = SetConsumerOffset (str_val g) (str_val t) p (ov_offset v) (ov_commit_ts v) o.
+Proof.
+  intros accept key value o rs al rq Hbk Hbv (kv & kr & E & Hkv) H Hin.
+  destruct (read_i16_inv _ _ _ Hbk E) as (Hkey & _ & Hbkr).
+  unfold process_message, process_message_gen in H. rewrite E in H.
+  replace ((kv =? 0) || (kv =? 1)) with true in H by (destruct Hkv; subst; reflexivity).
+  unfold decode_key_and_offset in H.
+  destruct (decode_offset_key true kr) as [[[g t] p] rk al0|al0|w] eqn:Ek; try discriminate;
+    [|inversion H; subst; destruct Hin].
+  destruct (decode_offset_key_inv _ _ _ _ _ _ Hbkr Ek) as (go & to & Hgo & Hto & Hp & -> & -> & Hkr).
+  destruct (accept (str_val go)) eqn:Ea; cbn [negb] in H; [|inversion H; subst; destruct Hin].
+  destruct value as [|v0 value']; [inversion H; subst; destruct Hin|].
+  set (value := v0 :: value') in *.
+  destruct (read_i16 value) as [[vv vr]|] eqn:Ev; [|inversion H; subst; destruct Hin].
+  destruct (read_i16_inv _ _ _ Hbv Ev) as (Hval & _ & Hbvr).
+  assert (Hk : key = enc_offset_key kv go to p ++ rk).
+  { rewrite Hkey, Hkr. unfold enc_offset_key. rewrite <- !app_assoc. reflexivity. }
+  destruct ((vv =? 0) || (vv =? 1)) eqn:E01.
+  - unfold send_offset in H.
+    destruct (decode_offset_value_v0 true vr) as [[off ts] rv al1|al1|w] eqn:Ed; try discriminate;
+      [|inversion H; subst; destruct Hin].
+    destruct (decode_offset_value_v0_inv _ _ _ _ _ Hbvr Ed) as (md & Ho & Hmd & Hts & Hvr).
+    inversion H; subst rs. destruct Hin as [<-|[]].
+    exists kv, go, to, p, vv, (mkOV off 0 md ts 0), rk, rv.
+    assert (Hvv : vv = 0 \/ vv = 1) by (apply orb_true_iff in E01; destruct E01 as [X|X]; apply Z.eqb_eq in X; lia).
+    assert (Hov : offset_value_ok (mkOV off 0 md ts 0)).
+    { unfold offset_value_ok. cbn [ov_offset ov_metadata ov_commit_ts ov_leader_epoch ov_expire_ts].
+      unfold in_i32, in_i64, two31, two63 in *. repeat split; auto; lia. }
+    split; [exact Hkv|]. split; [tauto|]. split; [exact Hgo|]. split; [exact Hto|]. split; [exact Hp|].
+    split; [exact Hov|]. split; [exact Hk|]. split; [|split; [exact Ea | reflexivity]].
+    rewrite Hval, Hvr. unfold enc_offset_value_read. cbn [ov_offset ov_metadata ov_commit_ts ov_leader_epoch].
+    replace (vv =? 3) with false by (destruct Hvv; subst; reflexivity).
+    rewrite <- !app_assoc. reflexivity.
+  - destruct (vv =? 3) eqn:E3; [|inversion H; subst; destruct Hin].
+    apply Z.eqb_eq in E3. subst vv.
+    unfold send_offset in H.
+    destruct (decode_offset_value_v3 true vr) as [[off ts] rv al1|al1|w] eqn:Ed; try discriminate;
+      [|inversion H; subst; destruct Hin].
+    destruct (decode_offset_value_v3_inv _ _ _ _ _ Hbvr Ed) as (ep & md & Ho & Hep & Hmd & Hts & Hvr).
+    inversion H; subst rs. destruct Hin as [<-|[]].
+    exists kv, go, to, p, 3, (mkOV off ep md ts 0), rk, rv.
+    assert (Hov : offset_value_ok (mkOV off ep md ts 0)).
+    { unfold offset_value_ok. cbn [ov_offset ov_metadata ov_commit_ts ov_leader_epoch ov_expire_ts].
+      unfold in_i32, in_i64, two31, two63 in *. repeat split; auto; lia. }
+    split; [exact Hkv|]. split; [tauto|]. split; [exact Hgo|]. split; [exact Hto|]. split; [exact Hp|].
+    split; [exact Hov|]. split; [exact Hk|]. split; [|split; [exact Ea | reflexivity]].
+    rewrite Hval, Hvr. unfold enc_offset_value_read. cbn [ov_offset ov_metadata ov_commit_ts ov_leader_epoch Z.eqb Pos.eqb].
+    rewrite <- !app_assoc. reflexivity.
+Qed.
+
+Definition commit_wellformed (accept : list Z -> bool) (key value : list Z) : Prop :=
+  exists kv g t p vv v restk restv,
+    (kv = 0 \/ kv = 1) /\ (vv = 0 \/ vv = 1 \/ vv = 3) /\
+    str_ok g /\ str_ok t /\ in_i32 p /\ offset_value_ok v /\
+    key = enc_offset_key kv g t p ++ restk /\
+    value = enc_offset_value_read vv v ++ restv.
+
+(* the property's last sentence, literally *)
+Theorem commit_malformed_skipped : forall (accept : list Z -> bool) key value o rs al,
+  bytes key -> bytes value -> is_commit_key key ->
+  ~ commit_wellformed accept key value ->
+  process_message accept key value o = Done rs al -> rs = [].
+Proof.
+  intros accept key value o rs al Hbk Hbv Hc Hn H.
+  destruct rs as [|r rs']; [reflexivity|]. exfalso. apply Hn.
+  destruct (commit_update_wellformed accept key value o (r :: rs') al r Hbk Hbv Hc H (or_introl eq_refl))
+    as (kv & g & t & p & vv & v & restk & restv & H1 & H2 & H3 & H4 & H5 & H6 & H7 & H8 & _).
+  exists kv, g, t, p, vv, v, restk, restv. tauto.
+Qed.
+
+Import Coq.Strings.String.
+(* non-vacuity: the unit test's literals are a well-formed commit; cut one byte off the value and nothing is sent *)
+Example commit_wellformed_example : commit_wellformed (fun _ => true) lit_okey1 lit_oval0.
+Proof.
+  exists 1, (sstr "testgroup"), (sstr "testtopic"), 11, 0, (mkOV 8372 0 (sstr "testdata") 1637 0), [], [].
+  repeat split; try (cbn; unfold in_i32, in_i64, two31, two63; lia); auto; vm_compute; lia.
+Qed.
+Example commit_truncated_example :
+  process_message (fun _ => true) lit_okey1 (removelast lit_oval0) 7 = Done [] [9; 9; 8].
+Proof. vm_compute. reflexivity. Qed.
